@@ -186,6 +186,10 @@ def check(ctx):
     nbeh = 0
     jobs = [(name, consts, stride, False) for name, consts, stride in mc_configs(ctx.tier)]
     jobs.append(('random', gen_constants(ctx.tier), 1, True))
+    # Z3 (charge shifts wrap around): all pairs of legs with <= 2 blocks, non-zero qtotal_LR / qtotal_Q, random options
+    jobs.append(('rect-z3', base_constants(Mods='<-ModsZ3', QTs={0, 1, 2}, QX={1, 2}, FillModes={'gen', 'zero'},
+                                           Ops={'svd', 'qr', 'lq'}, QModes={'LN', 'NR', 'LR'}, Labs={False},
+                                           SampPar=1 if quick else 3, SampMode=1, SampOpt=5 if quick else 12), 1, True))
     jobs = [j for j in jobs if not only or j[0] in only]
     # the TLC runs are independent: start them together, replay each dump as soon as it is complete.
     # (-coverage slows TLC about 4x here: per-action counts are taken from the dumped reachable states instead)
@@ -204,7 +208,7 @@ def check(ctx):
             try:
                 if gen:
                     # generator mode (random alternatives at every choice): not an exhaustive run, not counted as MC states
-                    ctx.mc_runs.append(dict(name='Factor/random (generator mode, not exhaustive)', **res.summary()))
+                    ctx.mc_runs.append(dict(name='Factor/%s (generator mode, not exhaustive)' % name, **res.summary()))
                 else:
                     if not res.violated:
                         res.coverage = dump_coverage(dump)
